@@ -5,7 +5,7 @@ import HcipyVerif.Model.Aperture
 Line-protocol front end of the C12 model.
 
 ```
-C12 eval  sep|pts|polar <tol> <xs> <ys> <shape…> →  ok <values> <near flags> <path==pointwise 0/1>
+C12 eval  sep|pts|polar <tol> <xs> <ys> <shape…> →  ok <values> <near flags> <path==pointwise 0/1> [polar: <#points where diskAgree fails away from a boundary>]
 C12 super <nx> <ny> <tol> <xs> <ys> <shape…>     →  ok <means> <near flags>  |  err index  |  err zerodiv
 C12 superstat mean|sum|min|max <nx> <ny> <tol> <xs> <ys> <shape…>   →  as `super`, for the given statistic
 C12 regsub sep <tol> <xs> <ys> <even> <r> <a> <dirs> <cx> <cy>
@@ -144,12 +144,16 @@ def evalResp (st : St) (mode : String) (tol : Rat) (xs ys : List Rat) (s : Shape
       let qs : List PPt := (xs.zip dirs).map fun q => (q.1, q.2.1, q.2.2)
       let pts := qs.map toCart
       let vals := evalPolar s qs
-      -- `evalPolar = map val ∘ toCart` is a theorem only for exact direction cosines (`PolarPt`: c² + s² = 1); the
-      -- floats cos θ, sin θ are not, so the self-check is demanded away from the decision boundaries only
+      -- `evalPolar = map val ∘ toCart` is a theorem for exact unit direction vectors (`PolarPt`); the floats cos θ,
+      -- sin θ are not.  What holds for them is `polar_path_eq_inside_float`: equality wherever `diskAgree` holds.
+      -- The flag is that conclusion; the extra field counts the points where `diskAgree` fails although the point
+      -- is not within `tol` of a decision boundary (must be 0 for radii ≥ 0: `polar_float_rim`).
       let nearF := pts.map (near tol s)
+      let agree := qs.map (diskAgree s)
       let self := vals.length == pts.length &&
-        (vals.zip (pts.zip nearF)).all fun (v, p, n) => n || v == val s p
-      (st, s!"ok {showRatList vals} {showList showBool nearF} {showBool self}")
+        (vals.zip (pts.zip agree)).all fun (v, p, a) => !a || v == val s p
+      let slack := ((agree.zip nearF).filter fun (a, n) => !a && !n).length
+      (st, s!"ok {showRatList vals} {showList showBool nearF} {showBool self} {slack}")
     | none => (st, "bad-op")
   else (st, "bad-op")
 
